@@ -381,3 +381,66 @@ Theorem create_parent_dirs_failure_means_blocked fs cwd outs e fs' : fs_wf fs ->
 Proof.
   intros W C H A. destruct (create_parent_dirs_succeeds fs cwd outs W C A) as [fs2 E]. congruence.
 Qed.
+
+(* ---------------------------------------------------------------------------------------- *)
+(* well-formedness is kept by every preparation, so the premises hold again for the next step *)
+
+Lemma cpd_wf cwd : forall outs fs dirs e fs', fs_wf fs -> node_at fs cwd = Some KDir ->
+  cpd_loop fs cwd dirs outs = (e, fs') -> fs_wf fs'.
+Proof.
+  induction outs as [|o r IH]; intros fs dirs e fs' W C H; simpl in H; [now inversion H; subst|].
+  destruct (lp_parent (path_new o)) as [par|]; [|eapply IH; eauto].
+  destruct (existsb (lp_eqb par) dirs); [eapply IH; eauto|].
+  destruct (create_dir_all fs cwd par) as [[er|] fs1] eqn:CD.
+  - inversion H; subst. eapply cda_wf; eauto.
+  - eapply (IH fs1); [eapply cda_wf; eauto| |exact H].
+    apply cda_extends in CD as [E _]. eapply node_at_mono; eauto.
+Qed.
+
+Lemma write_rspfile_wf fs cwd name content e fs' : fs_wf fs -> node_at fs cwd = Some KDir ->
+  write_rspfile fs cwd name content = (e, fs') -> fs_wf fs'.
+Proof.
+  intros W C. unfold write_rspfile. set (p := path_new name).
+  destruct (match lp_parent p with Some parent => create_dir_all fs cwd parent | None => (None, fs) end)
+    as [[er|] fs1] eqn:CD.
+  - intros H; inversion H; subst. destruct (lp_parent p); [eapply cda_wf; eauto|discriminate].
+  - assert (W1 : fs_wf fs1 /\ node_at fs1 cwd = Some KDir).
+    { destruct (lp_parent p).
+      - split; [eapply cda_wf; eauto|]. apply cda_extends in CD as [E _]. eapply node_at_mono; eauto.
+      - inversion CD; subst. now split. }
+    destruct W1 as [W1 C1].
+    destruct (sys_write fs1 cwd name content) as [er|fs2] eqn:Wr; intros H; inversion H; subst; [exact W1|].
+    apply sys_write_ok in Wr. fold p in Wr. revert Wr. unfold sys_write_l.
+    destruct (split_last (lp_comps p)) as [[pre c]|]; [|discriminate].
+    destruct (walk fs1 (lp_start cwd p) pre) as [er|cur] eqn:Wk; [discriminate|].
+    destruct (fs_is_dotdot c || fs_is_dot c); [discriminate|].
+    pose proof (walk_dir fs1 W1 _ _ _ (start_is_dir fs1 cwd p C1) Wk) as DC.
+    intros Wr.
+    assert (Sh : fs' = (cur ++ [c], KFile content) :: fs1 /\ lookup fs1 (cur ++ [c]) <> Some KDir).
+    { rewrite <- node_at_lookup by apply app_one_not_nil.
+      destruct (node_at fs1 (cur ++ [c])) as [[|ct]|]; try discriminate; inversion Wr; split; congruence. }
+    destruct Sh as [-> ND].
+    (* directories of fs1 are still directories *)
+    assert (KD : forall q, node_at fs1 q = Some KDir -> node_at ((cur ++ [c], KFile content) :: fs1) q = Some KDir).
+    { intros q D. destruct q as [|x q]; [reflexivity|]. simpl in *.
+      destruct (path_eqb (cur ++ [c]) (x :: q)) eqn:Q; [|exact D].
+      apply path_eqb_spec in Q. rewrite Q in ND. contradiction. }
+    intros q k L. simpl in L. destruct (path_eqb (cur ++ [c]) q) eqn:Q.
+    + apply path_eqb_spec in Q. subst q. split; [apply app_one_not_nil|]. rewrite removelast_snoc. now apply KD.
+    + apply W1 in L as [NE D]. split; [exact NE|now apply KD].
+Qed.
+
+Theorem prepare_step_wf fs cwd outs rsp e fs' : fs_wf fs -> node_at fs cwd = Some KDir ->
+  prepare_step fs cwd outs rsp = (e, fs') -> fs_wf fs' /\ node_at fs' cwd = Some KDir.
+Proof.
+  intros W C. unfold prepare_step, create_parent_dirs.
+  destruct (cpd_loop fs cwd [] outs) as [[er|] fs1] eqn:CP.
+  - intros H; inversion H; subst. split; [eapply cpd_wf; eauto|].
+    apply cpd_extends in CP as [E _]. eapply node_at_mono; eauto.
+  - assert (W1 : fs_wf fs1) by (eapply cpd_wf; eauto).
+    assert (C1 : node_at fs1 cwd = Some KDir) by (apply cpd_extends in CP as [E _]; eapply node_at_mono; eauto).
+    destruct rsp as [[n c]|].
+    + intros H. split; [eapply write_rspfile_wf; eauto|].
+      apply write_rspfile_dirs_kept in H. destruct cwd as [|x cw]; [reflexivity|]. simpl in *. now apply H.
+    + intros H; inversion H; subst. now split.
+Qed.
